@@ -131,6 +131,14 @@ def _dirname_or(V, st, self_val, args, kwargs, node):
     return SV(PATH, z3.If(opt_is_none(p.t, p.z), d.z, dn.z))
 
 
+def _standin(repo, seed, tier):
+    from pyvc.standin import run_standin
+    return run_standin('C10', tier, seed, repo)
+
+
+_standin.tiers = ('quick', 'thorough')
+BOUNDED = [_standin]
+
 NOT_DECIDED = [
     'that importlib\'s finders answer correctly (they are the oracle, called by jedi itself)',
     'stub preference layering in typeshed.import_module_decorator',
